@@ -544,7 +544,7 @@ def run_side(mode, stmts, text, cls="tuple", rc=True, nop=_NOTSET, params=None, 
             exc = _exc(e)
         obs = [observe_cursor(c) for c in curs]
         post = take_state(fs, conn, views)
-        d = conn._duck_conn  # noqa: SLF001
+        d = observe.engine_conn(conn)
         d = getattr(d, "_r", d)
         try:
             own = repr(d.execute("select * from db1.s1.t order by all").fetchall())
